@@ -249,6 +249,7 @@ def run(ctx):
             ctx.report(r_mile, "raw-public:" + acc, "public accessor %s exposes milestone entries (%s): its answer depends on milestone_interval" % (acc, why), prog.bodies[acc].file, prog.bodies[acc].line)
     r_mile.notes.append("consumers of raw accessors: %d" % ncons)
     invalidate_rule(ctx, syn)
+    delegate_rule(ctx, prog)
 
 
 # ---------------------------------------------------------------------- INVALIDATE
@@ -426,3 +427,26 @@ def exact_rule(ctx, syn):
                         ctx.report(r, key, "TextResource::utf8byte_to_charpos(%d) on the text %r with index entries at %s answers %s; expected %s" % (bc, text, entries, got, want), f_c.file, f_c.line, {"text": text, "index": entries, "byte": bc})
     r.hit("grid", sample={"texts": texts, "index_contents": "every subset of the positions 0..=len", "evaluations": n})
     ctx.floor(r, n, 1078, "conversion evaluations")
+
+
+# ---------------------------------------------------------------------- DELEGATE
+def delegate_rule(ctx, prog):
+    """The exactness and the error contract of the conversions are established for TextResource (ERR, EXACT).  The
+    conversions of the wrappers (ResultItem<TextResource>, ResultItem<TextSelection>, ResultTextSelection) inherit them
+    only by going through the resource's conversion on every path that returns a value."""
+    r = ctx.rule("C12.DELEGATE", "utf8byte / utf8byte_to_charpos of every wrapper type answer through the TextResource conversion of the same name on every path (so out-of-range positions are errors there too, and no second counting loop exists)")
+    n = 0
+    for bid, b in sorted(prog.bodies.items()):
+        m = re.search(r"^api::text::<impl text::Text<.*> for (.*)>::(utf8byte|utf8byte_to_charpos)$", bid)
+        if not m or b.d.get("derived"):
+            continue
+        n += 1
+        ctx.functions_analysed.add(bid)
+        name = m.group(2)
+        dele = set(bi for bi, t in b.calls() if (mirq.callee_of(t)[0] or "").endswith("::" + name) and "resources::TextResource" in ((mirq.callee_of(t)[1] or "") + " " + ((t.get("at") or [""])[0])))
+        rets = [bi for bi, blk in enumerate(b.blocks) if blk["t"]["t"] == "return"]
+        bypass = not dele or any(rt == 0 or b.can_reach(0, rt, avoid=dele) for rt in rets if 0 not in dele)
+        r.hit(bid, sample={"wrapper": m.group(1), "fn": name, "delegates": bool(dele), "bypass": bool(bypass)})
+        if bypass:
+            ctx.report(r, "%s|%s" % (m.group(1), name), "%s of %s can return without going through TextResource::%s: its answers (in particular the error for a position outside the text) are no longer those of the checked conversion" % (name, m.group(1), name), b.file, b.line)
+    ctx.floor(r, n, 6, "wrapper conversions")
